@@ -57,6 +57,13 @@ func main() {
 		Child:         child,
 		ClassifyDeath: classifyDeath,
 		Post: func(c *ev.Check, outs []*run.Outcome) {
+			mx := map[string]float64{}
+			for _, o := range outs {
+				if o != nil && o.WallS > mx[o.Batch.Kind] {
+					mx[o.Batch.Kind] = o.WallS
+				}
+			}
+			c.SetExtra("max_batch_wall_s_by_kind", mx)
 			for _, k := range []string{"restart_pairs", "prefix.nontrivial", "catchup.0", "catchup.1", "catchup.3", "catchup_records_judged",
 				"restart.banned_device_with_reports_on_disk", "restart.unregistered", "unregistered.registrable_after_restarts",
 				"changed.register", "changed.authorize", "changed.conflict.same-key", "changed.conflict.resigned", "changed.conflict.fresh-key", "changed.conflict.other-device-key",
@@ -72,6 +79,10 @@ func main() {
 // with the server lock held the child hangs until the watchdog. The panic line
 // on stderr is the witness.
 func classifyDeath(c *ev.Check, o *run.Outcome) bool {
+	if strings.Contains(o.Stderr, "server lived for longer than 120 seconds") {
+		c.Inconc(fmt.Sprintf("batch %d (%s): a test-mode server instance reached its 120 s life limit (machine too slow for this batch)", o.Batch.Index, o.Batch.Kind))
+		return true
+	}
 	line := run.CrashLine(o.Stderr)
 	i := strings.Index(line, "http: panic serving")
 	if i < 0 {
@@ -88,19 +99,35 @@ func classifyDeath(c *ev.Check, o *run.Outcome) bool {
 }
 
 func plan(tier string, seed int64) []run.Batch {
+	// generous watchdogs: CPU contention must not turn into a verdict; every
+	// server instance lives only until the next restart
 	var bs []run.Batch
 	nb, n := 9, 3
 	if tier == "thorough" {
-		nb, n = 64, 10
+		nb, n = 150, 3 // 150 scripted + 450 generated histories
 	}
 	for i := 0; i < nb; i++ {
-		bs = append(bs, run.Batch{Kind: "histories", Seed: seed*100000 + int64(i), N: n, TimeoutS: 110})
+		bs = append(bs, run.Batch{Kind: "histories", Seed: seed*100000 + int64(i), N: n, TimeoutS: 400})
 	}
 	// own process: if shutdown fails there, the instance cannot be stopped any more
 	for i := 0; i < 2; i++ {
-		bs = append(bs, run.Batch{Kind: "sharedkey", Seed: seed*100000 + 5000 + int64(i), N: 1, TimeoutS: 60, Params: map[string]string{"variant": fmt.Sprint(i)}})
+		bs = append(bs, run.Batch{Kind: "sharedkey", Seed: seed*100000 + 5000 + int64(i), N: 1, TimeoutS: 120, Params: map[string]string{"variant": fmt.Sprint(i)}})
 	}
 	return bs
+}
+
+// retry repeats an HTTP POST whose transport failed (the server closes idle
+// keep-alive connections after 2.5 s; a request written into such a
+// connection dies with EOF). All POSTs used here are idempotent.
+func retry(f func() (int, []byte, error)) (st int, body []byte, err error) {
+	for i := 0; i < 3; i++ {
+		st, body, err = f()
+		if err == nil || !(strings.Contains(err.Error(), "EOF") || strings.Contains(err.Error(), "connection reset") || strings.Contains(err.Error(), "broken pipe")) {
+			return
+		}
+		time.Sleep(5 * time.Millisecond)
+	}
+	return
 }
 
 func waitParked(rotArr, impArr int64) bool {
@@ -205,7 +232,7 @@ func (h *hist) bannedKnown() []*drv.Dev {
 func (h *hist) opRegister() string {
 	if !h.registered {
 		h.op("register GCA")
-		st, body, err := h.Register(h.GCA.Pub, h.Temp.Priv)
+		st, body, err := retry(func() (int, []byte, error) { return h.Register(h.GCA.Pub, h.Temp.Priv) })
 		if err != nil || st != 200 {
 			h.r.Inconc(fmt.Sprintf("%s: valid first GCA registration was not accepted: status %d err %v %s", h.tag, st, err, body))
 			h.dead = true
@@ -230,7 +257,7 @@ func (h *hist) opAuthorize() string {
 	h.next += 1 + uint32(h.rng.Intn(4))
 	d, a := h.mkDev(id, refenc.GenKey(h.rng))
 	h.op("authorize fresh id=%d", id)
-	st, _, _ := h.Authorize(a)
+	st, _, _ := retry(func() (int, []byte, error) { return h.Authorize(a) })
 	if st == 200 {
 		h.all[id] = d
 	}
@@ -249,7 +276,7 @@ func (h *hist) opKeyReuse() string {
 	h.next += 1 + uint32(h.rng.Intn(4))
 	d, a := h.mkDev(id, o.Key)
 	h.op("authorize fresh id=%d with the public key of authorized device %d", id, o.ID)
-	st, _, _ := h.Authorize(a)
+	st, _, _ := retry(func() (int, []byte, error) { return h.Authorize(a) })
 	if st == 200 {
 		h.all[id] = d
 	}
@@ -263,7 +290,7 @@ func (h *hist) opDuplicate() string {
 	}
 	d := ds[h.rng.Intn(len(ds))]
 	h.op("authorize exact duplicate id=%d", d.ID)
-	h.Authorize(d.Auth)
+	retry(func() (int, []byte, error) { return h.Authorize(d.Auth) })
 	return "duplicate"
 }
 
@@ -304,7 +331,7 @@ func (h *hist) opConflict(kind string) string {
 		a = h.MkAuth(d.ID, o.Key.Pub, a.Capacity)
 	}
 	h.op("conflicting authorization (%s) for id=%d, %d reports of it on disk", kind, d.ID, h.logged[d.ID])
-	h.Authorize(a)
+	retry(func() (int, []byte, error) { return h.Authorize(a) })
 	return "conflict." + kind
 }
 
